@@ -126,7 +126,13 @@ def check_case(ctx, drv, recipe, cfgs, idx, streams=("corr", "pred")):
         if d:
             sub = find(spec, d[0])
             what = d[0].rsplit(".", 1)[-1] if d[0].endswith((".names", ".len", ".class")) else "value"
-            ctx.pred_fail(f"roundtrip:{what}:{classify(sub)}", f"loaded graph differs from the saved one at {d[0]}", case,
+            key = f"roundtrip:{what}:{classify(sub)}"
+            parent = find(spec, d[0].rsplit("[", 1)[0]) if d[0].endswith("]") else None
+            if parent and parent[0] in ("list", "tuple", "set") and all(sc.numeric(e) for e in parent[1]) \
+                    and any(e[-1][0] == "float" for e in parent[1]) \
+                    and any(e[-1][0] == "int" and abs(int(e[-1][1])) > 2 ** 53 for e in parent[1]):
+                key = "numeric-seq-int-float-precision"
+            ctx.pred_fail(key, f"loaded graph differs from the saved one at {d[0]}", case,
                           observed=sc.short(d[2]), required=sc.short(d[1]))
     oks = [sc.canon_order(o) for k, o in obs if k == "ok"]
     if len(oks) == 2 and oks[0] != oks[1]:
@@ -164,6 +170,9 @@ def run(ctx):
                 c = json.load(open(os.path.join(cdir, f)))
                 check_case(ctx, drv, c["recipe"], c["cfgs"], f"c{idx}")
                 idx += 1
+        # fixed probe of a recorded finding (int/float promotion in the ndarray fast path)
+        probe = ["obj", "SA", [["a", ["list", [["scalar", ["int", str(2 ** 62 + 1)]], ["scalar", sc.S(0.5)]]]]]]
+        check_case(ctx, drv, probe, [gen_cfg(ctx.rng.fork(999), "zip")], "probe")
         n = ctx.n(120, 1500)
         for i in range(n):
             rng = ctx.rng.fork(i)
